@@ -1229,7 +1229,7 @@ def assigned_in(fv, root):
 
 
 class SymPath:
-    __slots__ = ("conds", "state", "exit", "ret", "effects", "events", "view")
+    __slots__ = ("conds", "state", "exit", "ret", "effects", "events", "view", "value")
 
     def __init__(self):
         self.conds = []     # [(term evaluated in the state at the test, polarity, node)]
@@ -1274,6 +1274,7 @@ def sym_paths(fv, root, limit=60000):
     for ev, ex in raw:
         sp = SymPath()
         sp.view = fv
+        sp.value = None
         st = dict(outer)
         vers = {}
 
@@ -1294,6 +1295,8 @@ def sym_paths(fv, root, limit=60000):
             elif e[0] == "arm":
                 m, i = e[1], e[2]
                 sp.conds.append((("arm", cur(fv.term(m["e"])), pat_term(m["arms"][i]["pat"])), True, m))
+            elif e[0] == "val":
+                sp.value = cur(fv.term(e[1]))
             elif e[0] == "loop":
                 n = e[1]
                 if id(n) not in inner_loops:
@@ -1356,6 +1359,14 @@ def enum_paths_atomic(root, want, limit=60000):
             acc = nxt
         return acc
 
+    CONTROL = ("block", "if", "match", "loop", "for", "while", "ret", "break", "continue")
+
+    def PV(x):
+        """paths of a branch / arm body; a bare expression is the value of the branch"""
+        if x is None or x.get("k") in CONTROL:
+            return P(x)
+        return [(ev + [("val", x)] if ex[0] == "fall" else ev, ex) for ev, ex in P(x)]
+
     def P(n):
         if n is None:
             return [([], ("fall",))]
@@ -1366,10 +1377,10 @@ def enum_paths_atomic(root, want, limit=60000):
                 if ex[0] != "fall":
                     out.append((ev, ex))
                     continue
-                for ev2, ex2 in P(n["then"]):
+                for ev2, ex2 in PV(n["then"]):
                     out.append((ev + [("cond", n["cond"], True)] + ev2, ex2))
                 if n.get("else") is not None:
-                    for ev2, ex2 in P(n["else"]):
+                    for ev2, ex2 in PV(n["else"]):
                         out.append((ev + [("cond", n["cond"], False)] + ev2, ex2))
                 else:
                     out.append((ev + [("cond", n["cond"], False)], ("fall",)))
@@ -1381,7 +1392,7 @@ def enum_paths_atomic(root, want, limit=60000):
                     out.append((ev, ex))
                     continue
                 for i, arm in enumerate(n.get("arms", [])):
-                    for ev2, ex2 in P(arm["body"]):
+                    for ev2, ex2 in PV(arm["body"]):
                         out.append((ev + [("arm", n, i)] + ev2, ex2))
             return out
         if k in ("loop", "for", "while"):
@@ -1397,7 +1408,11 @@ def enum_paths_atomic(root, want, limit=60000):
         if k == "block":
             parts = [(lambda s=s: P(s)) for s in n.get("stmts", [])]
             if n.get("expr") is not None:
-                parts.append(lambda: P(n["expr"]))
+                x = n["expr"]
+                if x.get("k") in ("block", "if", "match", "loop", "for", "while", "ret", "break", "continue"):
+                    parts.append(lambda: P(x))
+                else:
+                    parts.append(lambda: [(ev + [("val", x)] if ex[0] == "fall" else ev, ex) for ev, ex in P(x)])
             return seq(parts)
         if k == "let":
             res = P(n.get("init")) if n.get("init") is not None else [([], ("fall",))]
@@ -1412,3 +1427,25 @@ def enum_paths_atomic(root, want, limit=60000):
         return res
 
     return P(root)
+
+
+
+def lift_if(t):
+    """Distribute calls over a conditional argument: f(a, if c {x} else {y}, b) == if c {f(a,x,b)} else {f(a,y,b)}
+    (the arguments are pure terms).  Applied bottom-up, once per call."""
+    if not isinstance(t, tuple):
+        return t
+    t = tuple(lift_if(x) if isinstance(x, tuple) else x for x in t)
+    if t and t[0] == "call":
+        for i in range(2, len(t)):
+            a = t[i]
+            if isinstance(a, tuple) and a and a[0] == "if" and len(a) == 4:
+                return ("if", a[1], lift_if(t[:i] + (a[2],) + t[i + 1:]), lift_if(t[:i] + (a[3],) + t[i + 1:]))
+    return t
+
+
+def if_leaves(t):
+    """leaf values of a (nested) conditional term"""
+    if isinstance(t, tuple) and t and t[0] == "if" and len(t) == 4:
+        return if_leaves(t[2]) + if_leaves(t[3])
+    return [t]
